@@ -5,7 +5,7 @@ From Saml Require Import Base.Bytes Idp.FactTypes Gen.Facts Idp.Sso Idp.Logout I
 From Saml Require Import Idp.BuilderTypes Idp.Builder Xml.Unmarshal Idp.AuthnOf Idp.RequestsOf.
 From Saml Require Import Codec.Base64 Core.WireCodec Core.DecodeVia.
 From Saml Require Import Idp.BuilderTypes Idp.Builder Idp.BuiltDoc.
-From Saml Require Idp.AttrRefine Gen.Pure Core.TimeCheck.
+From Saml Require Idp.AttrRefine Gen.Pure Core.TimeCheck Idp.SuccessAny.
 From Saml Require Import Xml.SchemaTypes Xml.Schema Gen.Schema Xml.SamlSpec.
 
 Definition reply_msg (r : lreply) : option lmsg := match r with LBody m => Some m | LPost _ _ m => Some m | LHttp _ => None end.
@@ -148,6 +148,34 @@ Theorem C13_time_check_from_source :
   logout_time_call = [("arg0", "thunk:logoutRequest.IssueInstant"); ("arg1", "thunk:logoutRequest.NotOnOrAfter"); ("arg2", "p.TimeFormat")]%string.
 Proof. split; [exact TimeCheck.time_check_bridge|reflexivity]. Qed.
 
+(** END TO END, DOWN TO THE DOCUMENT: when the model posts a reply to a location, that location is the first SingleLogoutService location
+    registered for the issuer's provider (C13_target) and the LogoutResponse document the translated program builds from the reply's
+    fields has it as Destination, Success as status, the request's ID as InResponseTo and the IdP's entity ID as Issuer *)
+Theorem C13_end_to_end_document : forall e_form decode lookup instant_of now entity_id url relay m id1 rest issue until,
+  the_reply (out e_form decode lookup instant_of now entity_id) = Some (LPost url relay m) ->
+  (exists f q i sp others, e_form = Some f /\ decode (lf_enc f) (lf_req f) = Some q /\ lq_issuer q = Some i /\ lookup i = Some sp /\ sp_slo sp = url :: others) /\
+  built_sat "makeSuccessfulLogoutResponse" (Some (logout_rec (lm_in_response_to m) (lm_destination m) (lm_issuer m))) [DStr (b "f")] (id1 :: rest) issue until
+    (fun d r => r = rest /\
+       at_ d ["Destination"%string] = Some (DStr url) /\ at_ d ["Status"; "StatusCode"; "Value"]%string = Some (DStr (lm_status m)) /\
+       at_ d ["InResponseTo"%string] = Some (DStr (lm_in_response_to m)) /\ at_ d ["Issuer"; "Text"]%string = Some (DStr (lm_issuer m))).
+Proof.
+  intros e_form decode lookup instant_of now entity_id url relay m id1 rest issue until H.
+  destruct (C13_target _ _ _ _ _ _ _ _ _ H) as (f & q & i & sp & others & E1 & E2 & E3 & E4 & E5 & _ & Hd & Hs).
+  split; [exists f, q, i, sp, others; auto|].
+  destruct (logout_response_fields (lm_in_response_to m) (lm_destination m) (lm_issuer m) [] [] id1 rest issue until) as [_ L].
+  eapply SuccessAny.built_sat_mono; [exact L|].
+  intros d r (Hr & _ & A & B & C & _ & D). rewrite Hd in B. rewrite Hs. auto.
+Qed.
+
+(** ... and a refused request: the failure LogoutResponse (status, message) against the lmsg of the model *)
+Theorem C13_failure_refines_model : forall reqid url issuer reason message id1 rest issue until,
+  let M := {| lm_status := reason; lm_in_response_to := reqid; lm_issuer := issuer; lm_destination := url |} in
+  built_sat "makeFailedLogoutResponse" (Some (logout_rec reqid url issuer)) [DStr reason; DStr message; DStr (b "f")] (id1 :: rest) issue until
+    (fun d r => r = rest /\
+       AttrRefine.opt_str (at_ d ["Status"; "StatusCode"; "Value"]%string) = lm_status M /\ AttrRefine.opt_str (at_ d ["InResponseTo"%string]) = lm_in_response_to M /\
+       AttrRefine.opt_str (at_ d ["Issuer"; "Text"]%string) = lm_issuer M /\ AttrRefine.opt_str (at_ d ["Destination"%string]) = lm_destination M).
+Proof. exact AttrRefine.logout_failed_message_refines. Qed.
+
 Print Assumptions C13_success_iff.
 Print Assumptions C13_echo.
 Print Assumptions C13_target.
@@ -159,3 +187,5 @@ Print Assumptions C13_codec.
 Print Assumptions C13_trailing_content_refused.
 Print Assumptions C13_response_refines_model.
 Print Assumptions C13_time_check_from_source.
+Print Assumptions C13_end_to_end_document.
+Print Assumptions C13_failure_refines_model.
